@@ -16,6 +16,10 @@ Helpers for property C04c (whole-file label census).
 §4  generated sub-labels: `subLabelsOf_nodup`, `subLabels_cross`, `programSubLabels_nodup`.
 §5  `Closed` lines (every generated reference is defined among the same lines) and
     `closed_emitProgram`.
+§6  `emitTop`, `emitTops_mem`, `emitScripts_mem`, `emitTables_mem`, `script_accepted`: the components
+    of an accepted program are accepted and their lines are in the output; `entry_in_census`,
+    `script_name_defined`, `…_sub_program`.
+§7  `accepted_label_statements_fresh`: the label checks `renderStatements` performs.
 -/
 namespace Pory.C04c
 open Pory Pory.Emit Pory.RenderSim
@@ -668,7 +672,6 @@ theorem programLabels_nodup_of (o : Opts) (p : Program)
 
 /-! ### 5. generated references are defined among the same lines -/
 
-open C04 in
 /-- Every label named by a generated jump / conditional jump / `case` line of `ls` has a label line
 in `ls`. -/
 def Closed (ls : List Line) : Prop := ∀ x ∈ C04.refsOf ls, x ∈ (labelsOf ls).map (·.1)
@@ -1141,5 +1144,79 @@ theorem script_name_defined (o : Opts) (p : Program) (ls : List Line) (h : emitP
   obtain ⟨l, hl, _⟩ := script_accepted o p ls h s hs
   have := entry_in_census o p.patches _ s l hl
   exact scriptNames_sub_program o p s hs s.name (List.mem_map.2 ⟨_, this, rfl⟩)
+
+/-! ### 7. what acceptance already guarantees about label statements -/
+
+theorem renderStatements_fresh_tl (o : Opts) (patches : List ((Nat × Nat) × String)) (cl tl : List String) :
+    ∀ (ss : List Stmt) (ls : List Line), renderStatements o patches cl tl ss = .ok ls →
+      ∀ n ∈ stmtLabels ss, n.1 ∉ tl := by
+  intro ss
+  induction ss with
+  | nil => intro ls _ n hn; cases hn
+  | cons s r ih =>
+    intro ls h
+    cases s with
+    | cmd c =>
+      simp only [renderStatements] at h
+      split at h
+      · cases h
+      · next ls' hr => simpa [stmtLabels] using ih ls' hr
+    | label tok n g =>
+      simp only [renderStatements] at h
+      split at h
+      · cases h
+      · split at h
+        · cases h
+        · next hn =>
+          split at h
+          · cases h
+          · next ls' hr =>
+            intro x hx
+            simp only [stmtLabels, List.mem_cons] at hx
+            rcases hx with rfl | hx
+            · simpa using hn
+            · exact ih ls' hr x hx
+    | ite => simp [renderStatements] at h
+    | while_ => simp [renderStatements] at h
+    | doWhile => simp [renderStatements] at h
+    | brk => simp [renderStatements] at h
+    | cont => simp [renderStatements] at h
+    | switch_ => simp [renderStatements] at h
+
+/-- In an accepted script no label statement equals a text name or a chunk label (entry label or
+`<script>_<d>` for ANY chunk id `d` of the table, registered or not) of the same script: that is
+what `renderStatements` checks.  Nothing is checked across scripts, nor between chunk labels and
+text / movement / mart / mapscripts names. -/
+theorem accepted_label_statements_fresh (o : Opts) (patches : List ((Nat × Nat) × String))
+    (tl : List String) (s : Script) (l : List Line) (h : emitScript o patches tl s = .ok l) :
+    ∀ n ∈ userLabelsOf s, n ∉ tl ∧
+      ∀ G, scriptChunks s.body = .ok G → ∀ c ∈ G, n ≠ chunkLabel s.name c.id := by
+  rw [C05.emitScript_eq] at h
+  unfold userLabelsOf
+  cases hc : scriptChunks s.body with
+  | error e => rw [hc] at h; cases h
+  | ok G =>
+    rw [hc] at h
+    simp only at h
+    obtain ⟨order, ho, _, hfound⟩ := renderChunks_ok o patches s.name G (s.scope == .GLOBAL) tl l h
+    obtain ⟨hperm, _, _⟩ := C05.script_order_perm o s G order hc ho
+    obtain ⟨hidn, _⟩ := C05.scriptChunks_ids s.body G hc
+    intro n hn
+    obtain ⟨c, hcG, hnc⟩ := List.mem_flatMap.1 hn
+    obtain ⟨nb, hnb, rfl⟩ := List.mem_map.1 hnc
+    have hid : c.id ∈ order := hperm.mem_iff.2 (List.mem_map.2 ⟨c, hcG, rfl⟩)
+    obtain ⟨c', sl, hf, hr⟩ := hfound c.id hid
+    have hcc : c' = c := by
+      have := chunkOf_self G hidn c hcG
+      simp [chunkOf, hf] at this
+      exact this
+    subst hcc
+    obtain ⟨_, _, h3⟩ := renderStatements_ok o patches _ tl _ _ hr
+    refine ⟨renderStatements_fresh_tl o patches _ tl _ _ hr nb hnb, ?_⟩
+    intro G' hG' d hd
+    injection hG' with hG'
+    subst hG'
+    intro e
+    exact h3 nb hnb (List.mem_map.2 ⟨d, hd, e.symm⟩)
 
 end Pory.C04c
